@@ -1,5 +1,5 @@
 CONSTANTS Addrs = {"p", "q"}  Ids = {1, 2, 3}  V = 2  MaxOps = 6  Fix = TRUE  Bug = "none"
 SPECIFICATION Spec
-INVARIANT LearnOrder UniqueIds GenConsistent DrivesItsAddress AssignedIsLive OneMessage InRange
+INVARIANT LearnOrder UniqueIds GenConsistent DrivesItsAddress AssignedIsLive OneMessage InRange NoStuckController
 VIEW View
 CHECK_DEADLOCK FALSE
